@@ -30,6 +30,7 @@ func propC07(c *Ctx) {
 	c.ruleLineSource()
 	c.ruleNewlineOwner()
 	c.ruleScanTrace()
+	c.ruleDirectiveTrace()
 	c.ruleMemoKey()
 	// line numbers are counted in the file's bytes: nothing may rewrite them in place (a normaliser that works on the
 	// slice it was given shifts every later line)
@@ -397,23 +398,7 @@ func (c *Ctx) rulePhaseConstructor() {
 		}
 	}
 	r.Ok("C07-PHASE-CONSTRUCTOR", "post-scan phases", fmt.Sprintf("%d functions reachable from the four post-scan phases; violations listed separately", n), "")
-	// makeError attaches the trace
-	if f := c.fnOf(makeErr); f != nil {
-		attaches := false
-		ast.Inspect(f.Decl.Body, func(nd ast.Node) bool {
-			if call, ok := nd.(*ast.CallExpr); ok {
-				if cal := callee(f.Pkg, call); cal != nil && cal.Name() == "AddIncludeTraceToError" {
-					attaches = true
-				}
-			}
-			return true
-		})
-		if attaches {
-			r.Ok("C07-PHASE-CONSTRUCTOR", "makeError attaches the trace", "Directive.makeError calls includeTracer.AddIncludeTraceToError on the new error", c.pos(f.Decl.Pos()))
-		} else {
-			r.Bad("C07-PHASE-CONSTRUCTOR", "makeError attaches the trace", "Directive.makeError does not attach the directive's include trace", c.pos(f.Decl.Pos()))
-		}
-	}
+	// (that makeError attaches the trace on every path is C07-DIRECTIVE-TRACE)
 	// errors with an index into the body need a body
 	bei := c.P.LookupFunc("directive", "Directive.BodyErrorIndex")
 	if bei != nil {
@@ -1049,4 +1034,141 @@ func (c *Ctx) ruleMemoKey() {
 	} else {
 		r.Bad("C07-MEMO-KEY", "key ignores "+strings.Join(missing, ", "), "the cache key of the include tracer is computed from less than the cached value depends on (ignored: "+strings.Join(missing, ", ")+"): a directive of a file that is included a second time, or from another place, gets the trace of the first INCLUDE", c.pos(push.Decl.Pos()))
 	}
+}
+
+// ruleDirectiveTrace: after scanning, every error goes through the constructors of package directive
+// (C07-PHASE-CONSTRUCTOR). They are the one place where the include chain captured with the directive is attached, so
+// they must attach it whatever the message says: on every path from the construction of the error to its return.
+func (c *Ctx) ruleDirectiveTrace() {
+	r := c.R
+	r.Rule("C07-DIRECTIVE-TRACE", "in package directive, wherever an error is built with jerr.NewJApiError, every path from there to a return of that error passes a call of AddIncludeTraceToError on the directive's own tracer with the error as argument: the include chain does not depend on the wording of the message", 1)
+	pk := c.P.Pkg("directive")
+	if pk == nil {
+		r.Undecided("C07-DIRECTIVE-TRACE", "anchor", "package directive not found", "")
+		return
+	}
+	n := 0
+	for _, f := range c.libFns() {
+		if f.Pkg != pk {
+			continue
+		}
+		var news []*ast.CallExpr
+		ast.Inspect(f.Decl.Body, func(nd ast.Node) bool {
+			if call, ok := nd.(*ast.CallExpr); ok {
+				if cal := callee(f.Pkg, call); cal != nil && cal.Name() == "NewJApiError" && cal.Pkg() != nil && strings.HasSuffix(cal.Pkg().Path(), "/jerr") {
+					news = append(news, call)
+				}
+			}
+			return true
+		})
+		if len(news) == 0 {
+			continue
+		}
+		f0 := f
+		for _, nc := range news {
+			f := f0
+			fc := c.cfgOf(f)
+			n++
+			key := f.Name() + " | " + exprString(nc.Fun)
+			// the variable the error is kept in
+			var errObj types.Object
+			ast.Inspect(f.Decl.Body, func(nd ast.Node) bool {
+				if as, ok := nd.(*ast.AssignStmt); ok && len(as.Lhs) == 1 && len(as.Rhs) == 1 && ast.Unparen(as.Rhs[0]) == ast.Expr(nc) {
+					if id, ok := as.Lhs[0].(*ast.Ident); ok {
+						if o := f.Pkg.TypesInfo.Defs[id]; o != nil {
+							errObj = o
+						} else {
+							errObj = f.Pkg.TypesInfo.Uses[id]
+						}
+					}
+				}
+				return true
+			})
+			af := f
+			var origin ast.Node = nc
+			if errObj == nil {
+				// handed straight to a helper of the package: the obligation moves to the helper's parameter
+				inspectWithStack(f.Decl.Body, func(nd ast.Node, stack []ast.Node) bool {
+					if nd != ast.Node(nc) || len(stack) < 1 {
+						return true
+					}
+					outer, ok := stack[len(stack)-1].(*ast.CallExpr)
+					if !ok {
+						return true
+					}
+					g := c.fnOf(callee(f.Pkg, outer))
+					if g == nil || g.Pkg != pk {
+						return true
+					}
+					for i, a := range outer.Args {
+						if ast.Unparen(a) == ast.Expr(nc) {
+							if po := paramObjAt(g, i); po != nil {
+								af, errObj, origin = g, po, nil
+							}
+						}
+					}
+					return true
+				})
+			}
+			if errObj == nil {
+				r.Bad("C07-DIRECTIVE-TRACE", key, "the error is built and handed on without being kept: no include chain can be attached to it", c.pos(nc.Pos()))
+				continue
+			}
+			if af != f {
+				f, fc = af, c.cfgOf(af)
+			}
+			isErr := func(e ast.Expr) bool {
+				id, ok := ast.Unparen(e).(*ast.Ident)
+				return ok && f.Pkg.TypesInfo.Uses[id] == errObj
+			}
+			var traces, rets []ast.Node
+			ast.Inspect(f.Decl.Body, func(nd ast.Node) bool {
+				switch x := nd.(type) {
+				case *ast.CallExpr:
+					if cal := callee(f.Pkg, x); cal != nil && cal.Name() == "AddIncludeTraceToError" && len(x.Args) == 1 && isErr(x.Args[0]) {
+						if sel, ok := ast.Unparen(x.Fun).(*ast.SelectorExpr); ok {
+							if fv := fieldSel(f.Pkg, sel.X); fv != nil && isRecvField(f, sel.X) {
+								traces = append(traces, x)
+							}
+						}
+					}
+				case *ast.ReturnStmt:
+					for _, e := range x.Results {
+						if isErr(e) {
+							rets = append(rets, x)
+						}
+					}
+				}
+				return true
+			})
+			bad := false
+			for _, ret := range rets {
+				if (origin != nil && fc.reachesAvoiding(origin, ret, traces)) || (origin == nil && fc.reachesFromEntryAvoiding(ret, traces)) {
+					bad = true
+					r.Bad("C07-DIRECTIVE-TRACE", key, "a path from the construction of the error to its return passes no AddIncludeTraceToError of the directive's tracer: an error about a directive of an included file is reported without the include chain on that path", c.pos(ret.Pos()))
+					break
+				}
+			}
+			if !bad {
+				if len(rets) == 0 {
+					r.Bad("C07-DIRECTIVE-TRACE", key, "the error is never returned by name", c.pos(nc.Pos()))
+				} else {
+					r.Ok("C07-DIRECTIVE-TRACE", key, fmt.Sprintf("%d return(s), each after the trace is attached", len(rets)), c.pos(nc.Pos()))
+				}
+			}
+		}
+	}
+	if n == 0 {
+		r.Undecided("C07-DIRECTIVE-TRACE", "sites", "package directive builds no error: the constructor that C07-PHASE-CONSTRUCTOR relies on is gone", "")
+	}
+}
+
+// isRecvField: the expression is a field of the function's receiver (d.includeTracer).
+func isRecvField(f *Fn, e ast.Expr) bool {
+	sel, ok := ast.Unparen(e).(*ast.SelectorExpr)
+	if !ok || f.Decl.Recv == nil || len(f.Decl.Recv.List) != 1 || len(f.Decl.Recv.List[0].Names) != 1 {
+		return false
+	}
+	id, ok := ast.Unparen(sel.X).(*ast.Ident)
+	return ok && f.Pkg.TypesInfo.Uses[id] == f.Pkg.TypesInfo.Defs[f.Decl.Recv.List[0].Names[0]]
 }
